@@ -32,13 +32,21 @@ def variant_map(ctx, fn, pick=None):
     return out
 
 
-def r_uint_tables(ctx):
+UINT_KEYS = {'bit_width', 'from_bit_width', 'structural-type', 'structural-value', 'display', 'parse', 'grammar', 'grammar:no-prefix-shadowing', 'parse_decimal', 'try_from-bytes', 'as_integer:shifts'}
+
+
+def r_uint_tables(ctx, only=None):
+    """`only`: set of obligation keys to impose (other properties select the tables they depend on)."""
     rid = 'R07.4'
+
+    def ob(r, key, *a, **k):
+        if only is None or key in only:
+            ctx.ob(r, key, *a, **k)
     ctx.rule(rid, 'uN table agreement: for each of the nine widths all sibling tables name the same width N (bits), log2(N) and constructor')
     fx = ctx.facts()
     import math
     bw = variant_map(ctx, ctx.anchor(fx, 'types::UIntType::bit_width'))
-    ctx.ob(rid, 'bit_width', bw == {v: 'new_unchecked(%d_usize)' % n for v, n in WIDTHS.items()}, 'UIntType::bit_width: Uk ↦ k', None, str(bw))
+    ob(rid, 'bit_width', bw == {v: 'new_unchecked(%d_usize)' % n for v, n in WIDTHS.items()}, 'UIntType::bit_width: Uk ↦ k', None, str(bw))
     fb = {}
     fn = ctx.anchor(fx, 'types::UIntType::from_bit_width')
     for kind, p, ret in explore(ctx, fn):
@@ -46,13 +54,13 @@ def r_uint_tables(ctx):
             fb[p.conds[0][1]] = S(ret)
     exp = {str(n): 'Some{%s{}}' % v for v, n in WIDTHS.items()}
     exp['!' + '|'.join(str(n) for n in sorted(WIDTHS.values()))] = 'None{}'
-    ctx.ob(rid, 'from_bit_width', fb == exp, 'from_bit_width: k ↦ Uk, anything else ↦ None', fn.where(), str(fb))
+    ob(rid, 'from_bit_width', fb == exp, 'from_bit_width: k ↦ Uk, anything else ↦ None', fn.where(), str(fb))
     st = variant_map(ctx, ctx.anchor(fx, '<types::StructuralType as std::convert::From<types::UIntType>>::from'))
-    ctx.ob(rid, 'structural-type', st == {v: 'StructuralType{two_two_n(%d_usize)}' % int(math.log2(n)) for v, n in WIDTHS.items()}, 'StructuralType::from(Uk) = 2^(2^log2 k)', None, str(st))
+    ob(rid, 'structural-type', st == {v: 'StructuralType{two_two_n(%d_usize)}' % int(math.log2(n)) for v, n in WIDTHS.items()}, 'StructuralType::from(Uk) = 2^(2^log2 k)', None, str(st))
     sv_ = variant_map(ctx, ctx.anchor(fx, '<value::StructuralValue as std::convert::From<value::UIntValue>>::from'))
     exp = {v: 'StructuralValue{u%d(value@%s.0)}' % (n, v) for v, n in WIDTHS.items()}
     exp['U256'] = 'StructuralValue{u256(to_byte_array(value@U256.0))}'
-    ctx.ob(rid, 'structural-value', sv_ == exp, 'StructuralValue::from(Uk(n)) = SimValue::uk(n)', None, str(sv_))
+    ob(rid, 'structural-value', sv_ == exp, 'StructuralValue::from(Uk(n)) = SimValue::uk(n)', None, str(sv_))
     dp = {}
     fn = ctx.anchor(fx, '<types::UIntType as std::fmt::Display>::fmt')
     for kind, p, ret in explore(ctx, fn):
@@ -60,7 +68,7 @@ def r_uint_tables(ctx):
         ws = [S(e[2][1]) for e in event_calls(p, 'write_str')]
         if kind == 'RET' and len(labs) == 1 and len(ws) == 1:
             dp[labs[0]] = ws[0]
-    ctx.ob(rid, 'display', dp == {v: '"u%d"' % n for v, n in WIDTHS.items()}, 'Display: Uk ↦ "uk"', fn.where(), str(dp))
+    ob(rid, 'display', dp == {v: '"u%d"' % n for v, n in WIDTHS.items()}, 'Display: Uk ↦ "uk"', fn.where(), str(dp))
     pr = {}
     fn = ctx.anchor(fx, '<types::UIntType as parse::PestParse>::parse')
     for kind, p, ret in explore(ctx, fn):
@@ -69,14 +77,14 @@ def r_uint_tables(ctx):
         hit = [S(w) for w, l in p.conds if l != '0' and S(w).startswith('eq(as_str(pair), ')]
         if len(hit) == 1:
             pr[hit[0][len('eq(as_str(pair), '):-1]] = S(ret[2][0])
-    ctx.ob(rid, 'parse', pr == {'"u%d"' % n: '%s{}' % v for v, n in WIDTHS.items()}, 'UIntType::parse: "uk" ↦ Uk', fn.where(), str(pr))
+    ob(rid, 'parse', pr == {'"u%d"' % n: '%s{}' % v for v, n in WIDTHS.items()}, 'UIntType::parse: "uk" ↦ Uk', fn.where(), str(pr))
     from ..grammar import Grammar
     g = Grammar(fx.grammar)
     lits = g.literals('unsigned_type')
-    ctx.ob(rid, 'grammar', lits == {'u%d' % n for n in WIDTHS.values()}, 'grammar unsigned_type literals = u1..u256', 'src/minimal.pest (unsigned_type)', str(sorted(lits)))
+    ob(rid, 'grammar', lits == {'u%d' % n for n in WIDTHS.values()}, 'grammar unsigned_type literals = u1..u256', 'src/minimal.pest (unsigned_type)', str(sorted(lits)))
     n_sh, bad = g.prefix_shadowing()
-    sh = [x for x in bad if x[0] in ('unsigned_type', 'builtin_type', 'builtin_alias', 'builtin_function') and x[3]]
-    ctx.ob(rid, 'grammar:no-prefix-shadowing', not sh, 'inside a guarded keyword choice no earlier literal is a proper prefix of a later one (u1 after u16/u128)', 'src/minimal.pest', str(sh))
+    sh = [x for x in bad if re.match(r'^u\d+$', x[1]) and re.match(r'^u\d+$', x[2]) and x[3]]
+    ob(rid, 'grammar:no-prefix-shadowing', not sh, 'inside a guarded keyword choice no integer type name is a proper prefix of a later one (u1 after u16/u128)', 'src/minimal.pest', str(sh))
     # parse_decimal: Uk ↦ str::parse::<uk>
     fn = ctx.anchor(fx, 'value::UIntValue::parse_decimal')
     pd = {}
@@ -92,7 +100,7 @@ def r_uint_tables(ctx):
         pd[labs[0]] = (m.group(1).split('::')[-1] if m else None, ctor)
     exp = {v: ('u%d' % n, v) for v, n in WIDTHS.items()}
     exp.update({'U1': ('u8', 'u1'), 'U2': ('u8', 'u2'), 'U4': ('u8', 'u4'), 'U256': ('U256', 'U256')})
-    ctx.ob(rid, 'parse_decimal', pd == exp, 'parse_decimal: Uk ↦ s.parse::<uk>() wrapped in Uk (u1/u2/u4 through u8 and the range-checked constructors)', fn.where(), str(pd))
+    ob(rid, 'parse_decimal', pd == exp, 'parse_decimal: Uk ↦ s.parse::<uk>() wrapped in Uk (u1/u2/u4 through u8 and the range-checked constructors)', fn.where(), str(pd))
     # byte slices -> integers: big-endian for every width (sibling agreement across the arms)
     fn = ctx.anchor(fx, '<value::UIntValue as std::convert::TryFrom<&[u8]>>::try_from')
     tf = {}
@@ -106,7 +114,7 @@ def r_uint_tables(ctx):
             tf[p.conds[0][1]] = (S(ret).split('{')[1] if ret_kind(ret) == 'ok' else S(ret), inst)
     exp = {'1': ('U8', ''), '2': ('U16', 'from_be_bytes:u16'), '4': ('U32', 'from_be_bytes:u32'), '8': ('U64', 'from_be_bytes:u64'), '16': ('U128', 'from_be_bytes:u128'), '32': ('U256', 'from_byte_array:U256'),
            '!1|2|4|8|16|32': ('Err{"Too many bytes"}', '')}
-    ctx.ob(rid, 'try_from-bytes', tf == exp, 'TryFrom<&[u8]>: k bytes ↦ U(8k) read big-endian (from_be_bytes) for every width', fn.where(), str(tf))
+    ob(rid, 'try_from-bytes', tf == exp, 'TryFrom<&[u8]>: k bytes ↦ U(8k) read big-endian (from_be_bytes) for every width', fn.where(), str(tf))
     # as_integer shifts
     fn = [f for f in fx.find(r'^value::destruct::as_integer$')]
     ctx.floor(rid, 'destruct::as_integer', len(fn), 1)
@@ -119,7 +127,7 @@ def r_uint_tables(ctx):
             if len(labs) == 1 and labs[0] in ('1', '2', '4'):
                 sh[labs[0]] = S(ret)
         ok = all(re.search(r'U%s\{Shr\(.*, %d_i32\)\}' % (k, 8 - int(k)), v or '') for k, v in sh.items()) and set(sh) == {'1', '2', '4'}
-        ctx.ob(rid, 'as_integer:shifts', ok, 'as_integer: sub-byte widths are read from the top bits: shift = 8 − width', f.where(), str(sh))
+        ob(rid, 'as_integer:shifts', ok, 'as_integer: sub-byte widths are read from the top bits: shift = 8 − width', f.where(), str(sh))
 
 
 def r_shared_callee(ctx):
@@ -162,7 +170,7 @@ def r_shared_callee(ctx):
     exp = [('as_option(value)=None', 'None{}'), ('as_option(value)=Some & as_option(value)@Some.0=None', 'Some{new()}'), ('as_option(value)=Some & as_option(value)@Some.0=Some', 'as_array(as_option(value)@Some.0@Some.0, size)')]
     ctx.ob(rid, 'decode-block', got == sorted(exp), 'decoding a list block: none ↦ no elements, some(array) ↦ as_array(array, block size)', cb.where(), str(got))
     # compile arms: via schema summaries
-    c01.schema_rules(ctx, only={'compile::<impl ast::SingleExpression>::compile'})
+    c01.schema_rules(ctx, only={'compile::<impl ast::SingleExpression>::compile': r'=(Constant|Tuple|Array|List|Option|Either)\b'})
 
 
 def r_sum_leaves(ctx):
@@ -216,7 +224,7 @@ def r_cast(ctx):
             w = p.conds[1][0]
             seen = seen or (is_call(w) and 'StructuralType' in (w[3] or '') and all(is_call(a) and 'StructuralType' in a[1] and a[1].endswith('::from') for a in w[2]))
     ctx.ob(rid, 'guard:structural', seen, 'the cast guard compares StructuralType::from(source) with StructuralType::from(target)', fn.where())
-    c01.schema_rules(ctx, only={'compile::<impl ast::Call>::compile'})
+    c01.schema_rules(ctx, only={'compile::<impl ast::Call>::compile': r'=TypeCast\b'})
 
 
 def r_reconstruct(ctx):
@@ -261,7 +269,7 @@ def r_reconstruct(ctx):
         ctx.ob(rid, 'const-fold:' + k, got.get(k) == exp.get(k), 'from_const_expr %s ↦ %s' % (k, exp.get(k)), fc.where(), 'found %s' % got.get(k) if got.get(k) != exp.get(k) else None)
 
 
-def r_value_to_structural(ctx, rid='R07.9'):
+def r_value_to_structural(ctx, rid='R07.9', only=None):
     ctx.rule(rid, 'StructuralValue::from(&Value): each typed value variant becomes the structural constructor of the same name with the type components of that node (into() = StructuralType::from)')
     fx = ctx.facts()
     fn = ctx.anchor(fx, '<value::StructuralValue as std::convert::From<&value::Value>>::from')
@@ -280,15 +288,24 @@ def r_value_to_structural(ctx, rid='R07.9'):
            'Tuple': 'tuple(CHILDREN)', 'Array': 'array(CHILDREN, expect(as_array(%s.0)' % T, 'List': 'list(CHILDREN, expect(as_list(%s.0, NODE.inner@List.1)' % T,
            'UInt': 'from(NODE.inner@UInt.0)', 'Boolean': 'from(NODE.inner@Boolean.0)'}
     for k in sorted(set(exp) | set(got)):
+        if only is not None and k not in only:
+            continue
         ctx.ob(rid, 'to-structural:' + k, got.get(k) == exp.get(k), 'Value %s ↦ %s' % (k, exp.get(k)), fn.where(), 'found %s' % got.get(k) if got.get(k) != exp.get(k) else None)
 
 
 LAYOUT_GROUP = r"^(<types::StructuralType as types::TypeConstructible>::|<value::StructuralValue as value::ValueConstructible>::|<value::Value as value::ValueConstructible>::|<types::ResolvedType as types::TypeConstructible>::|value::destruct::|<value::StructuralValue as std::convert::From<|<types::StructuralType as std::convert::From<types::UIntType>>::from|array::|<array::)"
 
 
-def r_layout_tables(ctx, rid):
+# without the destructors (value::destruct::*, array::Unfolder/Combiner): what constants, witnesses and arguments go through
+LAYOUT_CONSTRUCT = r"^(<types::StructuralType as types::TypeConstructible>::|<value::StructuralValue as value::ValueConstructible>::|<value::Value as value::ValueConstructible>::|<types::ResolvedType as types::TypeConstructible>::|<value::StructuralValue as std::convert::From<|<types::StructuralType as std::convert::From<types::UIntType>>::from|array::(BTreeSlice|Partition)|<array::)"
+# list and array layout only (fold / list values)
+LAYOUT_LIST = r"^(<(types::StructuralType|types::ResolvedType) as types::TypeConstructible>::(list|array|option|product|unit)|<(value::StructuralValue|value::Value) as value::ValueConstructible>::(list|array|none|some|product|unit)|<value::StructuralValue as std::convert::From<&|array::(BTreeSlice|Partition)|<array::)"
+
+
+def r_layout_tables(ctx, rid, group=LAYOUT_GROUP, floor=30):
     from . import c04
-    c04.group_rule(ctx, rid, LAYOUT_GROUP, 'layout constructors, destructors and the tree/partition folds: complete bodies (every path, call and value)', 30)
+    what = {LAYOUT_GROUP: 'layout constructors, destructors and the tree/partition folds', LAYOUT_CONSTRUCT: 'layout constructors and the tree/partition folds', LAYOUT_LIST: 'list/array layout constructors and the tree/partition folds'}[group]
+    c04.group_rule(ctx, rid, group, what + ': complete bodies (every path, call and value)', floor)
 
 
 def check(ctx):
